@@ -66,6 +66,9 @@ void preempt_now(int target);  // forced switch (op-level preemption), no-op if 
 using WatchCb = void (*)(int tag);
 void watch_set(int slot, const void *lo, const void *hi, int tag, WatchCb cb);  // per-thread slots 0..3
 void watch_clear(int slot);
+// foreign-access watch: while set, any instrumented access to [lo,hi) by a thread other than `owner` is reported as `kind`
+void region_set(int owner, const void *lo, const void *hi, const char *kind, const char *what);
+void region_clear(int owner);
 
 /*------------------------------------------------------------------------------
  * Run control (used by interpreters/drivers)
